@@ -34,3 +34,39 @@ Theorem C05_duplicate_fallback_refuted :
   30 * sec > 2 * p_rci pol_nc.
 Proof. exact C05_refuted_by_duplicate_fallback. Qed.
 Print Assumptions C05_duplicate_fallback_refuted.
+
+(* "Records written under the revoked key remain decryptable": in the theorems below the history after the Encrypt may contain any
+   revocations (HRevoke flags a row; benign / benignL allow it anywhere), and the record still decrypts to its payload - in a fresh
+   process holding only the metastore and the KMS, and in any live session of the partition with its key caches. *)
+From Asherah Require Import Envelope.Coherent Envelope.FreshProcess Envelope.Live.
+
+Theorem C05_revoked_records_decrypt_in_a_fresh_process : forall svc prod t0 ops now pol,
+  Forall (benign svc prod) ops ->
+  let h := snd (hrun (hinit t0) ops) in
+  forall j d, nth_error (h_recs h) j = Some d ->
+    exists pid p, fst (decrypt_data_row_record (nocache_env svc prod pid pol) d (fresh_world (w_store (h_world h)) now)) = inr p.
+Proof. exact every_record_decrypts_in_a_fresh_process. Qed.
+Print Assumptions C05_revoked_records_decrypt_in_a_fresh_process.
+
+Theorem C05_revoked_records_decrypt_in_live_sessions : forall svc prod h s1 x1 payload faults,
+  HInv svc prod h -> HIL svc prod (h_world h) -> nth_error (w_sessions (h_world h)) s1 = Some x1 ->
+  match hstep h (HEncrypt s1 payload faults) with
+  | (OEnc _ _, _, h1) =>
+      forall ops s2 x2, Forall (benignL svc prod) ops ->
+        let h2 := snd (hrun h1 ops) in
+        nz_store (w_store (h_world h2)) -> nth_error (w_sessions (h_world h2)) s2 = Some x2 -> p_id (ss_part x2) = p_id (ss_part x1) ->
+        fst (fst (hstep h2 (HDecrypt s2 (List.length (h_recs h)) [] []))) = ODec (Some payload)
+  | _ => True
+  end.
+Proof. exact encrypt_then_decrypt_live. Qed.
+Print Assumptions C05_revoked_records_decrypt_in_live_sessions.
+
+(* the premise is met by a history in which the record's intermediate key AND its system key are revoked before the decrypt *)
+Example C05_revoked_nonvacuous :
+  let ops := [HNewFactory Rotation.pol100 (s "svc") (s "prod") None; HGetSession 0 (s "p"); HEncrypt 0 9 [];
+              HRevoke (s "_IK_p_svc_prod") (Rotation.t0 / sec); HRevoke (s "_SK_svc_prod") (Rotation.t0 / sec); HAdvance (30 * sec);
+              HGetSession 0 (s "p")] in
+  let h := snd (hrun (hinit Rotation.t0) ops) in
+  Forall (benignL (s "svc") (s "prod")) ops /\ nz_storeb (w_store (h_world h)) = true /\
+  fst (fst (hstep h (HDecrypt 1 0 [] []))) = ODec (Some 9%nat) /\ fst (fst (hstep h (HDecrypt 0 0 [] []))) = ODec (Some 9%nat).
+Proof. split; [repeat constructor; cbn; try exact I|]. split; [vm_compute; reflexivity|]. split; vm_compute; reflexivity. Qed.
